@@ -53,6 +53,55 @@ package fourier
 //@ panics iff !valid
 //@ ensures len(result) == len(t.real)
 
+// A transform object is (re)sized by Reset alone: whatever lengths it was used or Reset with
+// before, after Reset(n) it accepts exactly sequences of length n (Len() == n) and its work
+// arrays have the lengths the transform routines require. The capacity relation between the
+// two arrays of FFT / CmplxFFT is the representation invariant that makes reslicing safe; it
+// holds for the zero value and is preserved by Reset.
+
+//@ func FFT.Len props: C17
+//@ requires t != nil
+//@ ensures result == len(t.real)
+
+//@ func FFT.Reset props: C17 C07(safety)
+//@ requires t != nil && n >= 1 && cap(t.work) == 2*cap(t.real)
+//@ modifies t
+//@ ensures len(t.real) == n && len(t.work) == 2*n && cap(t.work) == 2*cap(t.real)
+
+//@ func CmplxFFT.Len props: C17
+//@ requires t != nil
+//@ ensures result == len(t.work)/4
+
+//@ func CmplxFFT.Reset props: C17 C07(safety)
+//@ requires t != nil && n >= 1 && cap(t.work) == 2*cap(t.real)
+//@ modifies t
+//@ ensures len(t.work) == 4*n && len(t.real) == 2*n && cap(t.work) == 2*cap(t.real)
+
+//@ func DCT.Len QuarterWaveFFT.Len props: C17
+//@ requires t != nil
+//@ ensures result == len(t.work)/3
+
+//@ func DCT.Reset props: C17 C07(safety)
+//@ requires t != nil
+//@ valid n >= 2
+//@ panics iff !valid, before-writes
+//@ modifies t
+//@ ensures len(t.work) == 3*n
+
+//@ func QuarterWaveFFT.Reset props: C17 C07(safety)
+//@ requires t != nil && n >= 1
+//@ modifies t
+//@ ensures len(t.work) == 3*n
+
+//@ func DST.Len props: C17
+//@ requires t != nil
+//@ ensures result == (2*len(t.work)+1)/5 - 1
+
+//@ func DST.Reset props: C17 C07(safety)
+//@ requires t != nil && n >= 1
+//@ modifies t
+//@ ensures len(t.work) == 5*(n+1)/2 && (2*len(t.work)+1)/5 - 1 == n
+
 // ShiftIdx and UnshiftIdx are mutually inverse bijections of [0, n) for every n.
 
 //@ lemma shift_unshift_inverse props: C17
